@@ -355,6 +355,123 @@ class Nested(Sub):
 
 
 # --------------------------------------------------------------------------
+# a sheet: the cell listener evaluates the formula of the requested cell on the SAME parser (the
+# ordinary way a host resolves references), recursively
+
+SHEET_A = ['5', '0', '""', '2.5', 'FALSE', '"txt"', '1/0', '', 'IF(1>3,,"low")', 'IF(TRUE,,1)']
+SHEET_B = ['A1', 'A1+1', 'IF(A1>3,,"low")', 'IF(ISBLANK(A1),0,)', 'A1&"|"', 'SUM(A1:A1)', 'IFERROR(A1,)', '7', 'nosuch+A1',
+           'ISBLANK(A1)']
+SHEET_C = ['B1', 'A1', 'B1&A1', 'IF(B1,"y","n")', 'SUM(A1:B1)', 'IF(A1=B1,,A1)', 'B1+0']
+SHEET_TOP = ['C1', 'ISBLANK(C1)&ISNUMBER(C1)&ISTEXT(C1)', 'C1+B1', 'B1&"/"&C1', 'A1&C1&B1&A1', 'SUM(A1:C1)', 'IF(ISERROR(C1),A1,C1)',
+             'C1=A1', 'IFERROR(B1+C1,A1)']
+
+
+class Sheet(Sub):
+    name = 'c03.sheet'
+    rule = ('every sheet A1 x B1 x C1 over pools of 10 x 10 x 7 formulas (numbers, 0, "", FALSE, blanks, errors, references '
+            'to the cells before, a 1-cell or 2/3-cell range) x 9 top formulas: the cell and range listeners resolve a '
+            'reference by evaluating that cell\'s formula on the SAME parser, recursively (nested evaluation inside a '
+            'listener, to depth 3); the outcome must equal the bottom-up evaluation in which every cell is computed on a '
+            'parser of its own and handed on as a constant; non-trivial = all')
+    min_cases = 500
+    min_nontrivial = 500
+    min_classes = 4
+
+    def cases(self, tier, unit):
+        for a in range(len(SHEET_A)):
+            for b in range(len(SHEET_B)):
+                for c in range(len(SHEET_C)):
+                    yield [a, b, c]
+
+    @staticmethod
+    def value_of(r):
+        """what a host stores for a cell: the result, or the error object when the formula failed"""
+        if isinstance(r, dict) and r.get('error') is not None:
+            return ('err', r['error'])
+        if isinstance(r, dict):
+            return ('val', r['result'])
+        return ('err', '#ERROR!')
+
+    def check(self, env, case):
+        a, b, c = case
+        formulas = {'A1': SHEET_A[a], 'B1': SHEET_B[b], 'C1': SHEET_C[c]}
+        errmod = env.err
+        env.nt()
+
+        def to_host(v):
+            if v[0] == 'err':
+                return env.dec({'$err': v[1]})
+            return v[1]
+
+        # bottom-up reference: a parser per cell, lower cells as constants
+        consts = {}
+        for label in ('A1', 'B1', 'C1'):
+            consts[label] = self.value_of(self.eval_with(env, formulas[label], consts, to_host))
+        out = []
+        for top in SHEET_TOP:
+            want = env.out(self.eval_with(env, top, consts, to_host))
+            # recursive host on ONE parser
+            p = env.new_parser()
+            depth = {'n': 0}
+
+            def resolve(label):
+                f = formulas.get(label)
+                if f is None:
+                    return None
+                depth['n'] += 1
+                try:
+                    if depth['n'] > 6:
+                        return None
+                    return to_host(self.value_of(p.parse(f)))
+                finally:
+                    depth['n'] -= 1
+
+            def on_cell(cell, setter):
+                setter(resolve(cell.label.replace('$', '')))
+
+            def on_range(s_, e_, setter):
+                row = []
+                for ci in range(s_.col.index, e_.col.index + 1):
+                    row.append(resolve('ABCDEFGH'[ci] + '1'))
+                setter([row])
+            p.on('callCellValue', on_cell)
+            p.on('callRangeValue', on_range)
+            env.evals += 1
+            try:
+                got = env.out(p.parse(top))
+            except Exception as e:
+                got = ['x', type(e).__name__]
+            env.note('C1 is %s' % ('an error' if consts['C1'][0] == 'err' else type(consts['C1'][1]).__name__))
+            if got != want:
+                out.append(fail('sheet A1=%r, B1=%r, C1=%r: %r evaluated with listeners that resolve references by evaluating the '
+                                'referenced cell on the same parser gives %r; bottom-up (every cell on a parser of its own) '
+                                'gives %r' % (formulas['A1'], formulas['B1'], formulas['C1'], top, got, want), want, got))
+                break
+        return out
+
+    def eval_with(self, env, formula, consts, to_host):
+        p = env.new_parser()
+
+        def on_cell(cell, setter):
+            v = consts.get(cell.label.replace('$', ''))
+            setter(None if v is None else to_host(v))
+
+        def on_range(s_, e_, setter):
+            row = []
+            for ci in range(s_.col.index, e_.col.index + 1):
+                v = consts.get('ABCDEFGH'[ci] + '1')
+                row.append(None if v is None else to_host(v))
+            setter([row])
+        p.on('callCellValue', on_cell)
+        p.on('callRangeValue', on_range)
+        env.evals += 1
+        try:
+            return p.parse(formula)
+        except Exception as e:
+            return ('raised', e)
+
+
+# --------------------------------------------------------------------------
 # bindings are per instance
 
 BOPS = [['setvar', 'xv', 11], ['setvar', 'TRUE', 'hijack'], ['setfn', 'XF'], ['setfn', 'SUM'], ['oncell'], ['onvar'],
@@ -465,4 +582,4 @@ class Bindings(Sub):
         return None
 
 
-SUBS = [Threads(), ThreadsCold(), Nested(), Bindings()]
+SUBS = [Threads(), ThreadsCold(), Nested(), Sheet(), Bindings()]
